@@ -93,8 +93,10 @@ def run_online(spec, rec: Recorder):
                 if nowp < pos:
                     nowp = pos
                 cfg.now = (l0,) + nowp
-                name_len = rng.randrange(0, 41)
-                cfg.domain = "" if name_len == 0 else ("d" * name_len if name_len < 3 else "d" * (name_len - 2) + ".t")
+                name_len = rng.randrange(0, 41) if i % 9 else rng.choice([63, 100, 200])
+                cfg.domain = "" if name_len == 0 else ("d" * name_len if name_len < 3 else ".".join(["d" * 50] * (name_len // 51) + ["d" * max(1, name_len % 51 - 2)]) + ".t")
+                if i % 11 == 5:
+                    cfg.domain = rng.choice(["müller.example", "中文.example", "xn--mller-kva.example", "UPPER.Example"])
                 cfg.forest = cfg.domain[: rng.randrange(0, name_len + 1)]
                 cfg.l2_key_absent_at_31 = rng.random() < 0.3
                 cfg.header_sign = rng.random() < 0.8
@@ -109,7 +111,7 @@ def run_online(spec, rec: Recorder):
                 rec.count(f"policy_{cfg.policy}")
                 rec.seen("sd_len_mod8", len(rsd.target_sd(rsd.canonical_sid_from_string(sid))) % 8)
                 kw = dict(username=fe.NTLM_USER, password=fe.NTLM_PASS, auth_protocol=auth_protocol)
-                host = "dc%02d.%s" % (i % 7, cfg.domain or "nodomain.test")
+                host = "dc%02d.%s" % (i % 7, (cfg.domain if cfg.domain.isascii() else "") or "nodomain.test")
                 if use_dns:
                     dns_.set_records([(0, 100, 389, host + "."), (1, 200, 389, "other.example.")])
                 else:
